@@ -137,8 +137,22 @@ impl<T: fmt::Display> fmt::Display for Override<T> {
 /// Parses a `Meta`. A bare word will produce `Override::Inherit`, while
 /// any value will be forwarded to `T::from_meta`.
 impl<T: FromMeta> FromMeta for Override<T> {
+    fn from_meta(item: &syn::Meta) -> Result<Self> {
+        // Everything but the bare word is handed to `T` as a whole, so that an explicit value
+        // is accepted exactly when `T` accepts it (including types that only override `from_meta`).
+        if let syn::Meta::Path(_) = item {
+            Self::from_word()
+        } else {
+            T::from_meta(item).map(Explicit)
+        }
+    }
+
     fn from_word() -> Result<Self> {
         Ok(Inherit)
+    }
+
+    fn from_expr(expr: &syn::Expr) -> Result<Self> {
+        Ok(Explicit(FromMeta::from_expr(expr)?))
     }
 
     fn from_list(items: &[NestedMeta]) -> Result<Self> {
